@@ -1,1 +1,345 @@
-From Mv Require Import Model.Remote.
+(* C21 -- Remote endpoints behave exactly like local endpoints.
+
+   Property theorems only; each is closed by [exact <lemma>] from
+   Proof/Remote.v and listed under Print Assumptions at the end.
+
+   The statement (properties.jsonl): for any sequence of endpoint operations,
+   an endpoint reached through the agent protocol (delta-encoded snapshots,
+   compacted staging responses, wrapped transition results) returns the same
+   snapshots, staging requirements, transition results, problems and
+   missing-file indications as the same endpoint used locally; snapshot
+   reconstruction is exact for any history of scans.
+
+   What is proved, about the model of client.go/server.go/protocol.go in
+   Model/Remote.v, for an ARBITRARY local endpoint (any state machine whose
+   answers respect the synchronization.Endpoint contract):
+     c21_scan_history        every history of scans
+     c21_stage_compaction    the path-list shorthand is lossless
+     c21_stage_ensure_valid  what StageResponse.ensureValid accepts
+     c21_transition_results  results / problems / missing-files flag
+     c21_equivalence_partial every sequence of Scan/Stage/Transition
+   The last one carries the hypothesis [known_c21 read_only o = false]: on a
+   read-only endpoint, Stage with an empty path list fails locally and
+   "succeeds" remotely (c21_readonly_empty_stage_refuted); outside that class
+   the equivalence is proved.
+
+   NOT proved (validated by the harness goharness/cmd/remote only): the
+   concurrency of the completion requests (Scan/Transition/Poll send a
+   completion request concurrently with receiving the response), the stream
+   layer under the messages (compression, framing: C22), Poll, and the
+   forwarding of rsync transmissions through the receivers of Stage/Supply. *)
+From Coq Require Import List Bool Arith String.
+Import ListNotations.
+From Mv Require Import Model.Remote Proof.Remote.
+
+Section C21.
+
+Variables snapshot ancestor bytes sgn delta : Type.
+Variable marshal : snapshot -> option bytes.
+Variable unmarshal : bytes -> option snapshot.
+Variable sig_of : bytes -> sgn.
+Variable deltify : bytes -> sgn -> delta.
+Variable patch : bytes -> sgn -> delta -> option bytes.
+Variable of_ancestor : ancestor -> snapshot.
+Variable content_nil : snapshot -> bool.
+Variable snap_valid : snapshot -> bool.
+Variable delta_valid : delta -> bool.
+Variable delta_empty : delta -> bool.
+Variable delta_nil : delta.
+Variables pathT digestT fsig : Type.
+Variable fsig_valid : fsig -> bool.
+Variables result problem change : Type.
+Variable result_valid : result -> bool.
+Variable problem_valid : problem -> bool.
+Variable change_valid : change -> bool.
+
+(* Protocol Buffers: deserialising a serialisation gives the value back. *)
+Hypothesis marshal_roundtrip : forall s b, marshal s = Some b -> unmarshal b = Some s.
+(* rsync -- this is property C19's theorem, assumed here by name. *)
+Hypothesis c19_patch_deltify :
+  forall base target, patch base (sig_of base) (deltify target (sig_of base)) = Some target.
+(* the engine's operations pass Operation.EnsureValid; an unset delta is
+   valid and empty *)
+Hypothesis deltify_valid : forall t s, delta_valid (deltify t s) = true.
+Hypothesis delta_nil_valid : delta_valid delta_nil = true.
+Hypothesis delta_nil_empty : delta_empty delta_nil = true.
+
+(* ------------------------------------------------------------------ scan *)
+
+(* For EVERY history of scans -- successes, endpoint errors with either
+   try-again flag, snapshots with nil content, plain and full scans, any
+   ancestors, starting from any lastSnapshotBytes -- what can be observed of
+   the protocol run (the bytes the client patches against, the signature and
+   the flag in the request, the result the caller gets, lastSnapshotBytes
+   afterwards) is what the message-free specification says:
+     - the result is the endpoint's own answer to the flag the caller passed
+       (a snapshot: that very snapshot; an error: its message and try-again
+       flag),
+     - the baseline before each request is the endpoint's serialisation of the
+       latest answered snapshot with non-nil content, else the serialised
+       ancestor-based snapshot, and the request carries the signature of
+       exactly these bytes (so client and server agree on the baseline
+       without the server keeping one),
+     - lastSnapshotBytes changes on no error path and not on nil content.
+   [event_wf]: the endpoint's snapshots pass EnsureValid and serialise, its
+   error messages are non-empty, the ancestors serialise. *)
+Theorem c21_scan_history :
+  forall (h : list (scan_event snapshot ancestor)) (last : option bytes),
+    Forall (event_wf marshal of_ancestor snap_valid) h ->
+    map observe
+        (scan_trace marshal unmarshal sig_of deltify patch of_ancestor content_nil
+                    snap_valid delta_valid delta_empty delta_nil last h)
+    = spec_trace marshal sig_of of_ancestor content_nil last h.
+Proof.
+  exact (scan_history snapshot ancestor bytes sgn delta marshal unmarshal sig_of deltify patch
+                      of_ancestor content_nil snap_valid delta_valid delta_empty delta_nil
+                      marshal_roundtrip c19_patch_deltify deltify_valid delta_nil_valid
+                      delta_nil_empty).
+Qed.
+
+(* Readable form: the i-th result is the endpoint's i-th answer. *)
+Theorem c21_scan_snapshots_exact :
+  forall (h : list (scan_event snapshot ancestor)) (last : option bytes),
+    Forall (event_wf marshal of_ancestor snap_valid) h ->
+    map st_result
+        (scan_trace marshal unmarshal sig_of deltify patch of_ancestor content_nil
+                    snap_valid delta_valid delta_empty delta_nil last h)
+    = map (fun ev => lift_scan (ev_answer ev (ev_full ev))) h.
+Proof.
+  exact (scan_results snapshot ancestor bytes sgn delta marshal unmarshal sig_of deltify patch
+                      of_ancestor content_nil snap_valid delta_valid delta_empty delta_nil
+                      marshal_roundtrip c19_patch_deltify deltify_valid delta_nil_valid
+                      delta_nil_empty).
+Qed.
+
+(* Readable form: before each request both sides use the same baseline. *)
+Theorem c21_scan_baselines_agree :
+  forall (h : list (scan_event snapshot ancestor)) (last : option bytes),
+    Forall (event_wf marshal of_ancestor snap_valid) h ->
+    Forall (fun st => exists b rq, st_base st = Some b /\ st_request st = Some rq
+                                   /\ rq_sig rq = sig_of b)
+           (scan_trace marshal unmarshal sig_of deltify patch of_ancestor content_nil
+                       snap_valid delta_valid delta_empty delta_nil last h).
+Proof.
+  exact (scan_baselines_agree snapshot ancestor bytes sgn delta marshal unmarshal sig_of deltify
+                              patch of_ancestor content_nil snap_valid delta_valid delta_empty
+                              delta_nil).
+Qed.
+
+(* ----------------------------------------------------------------- stage *)
+
+(* Expansion undoes compaction for every order-preserving subsequence of the
+   request with one signature per path -- in particular for "all paths" (sent
+   as an empty path list with signatures) and "no paths" (empty list, no
+   signatures), the two encodings that share the empty path list. *)
+Theorem c21_stage_compaction :
+  forall (req paths : list pathT) (sigs : list fsig),
+    subseq paths req -> List.length sigs = List.length paths ->
+    expand req (compact req paths sigs) = (paths, sigs).
+Proof. exact (stage_compaction pathT fsig). Qed.
+
+(* StageResponse.ensureValid accepts exactly the responses whose expansion has
+   one signature per path, no more paths than requested, valid signatures,
+   and no paths next to an error. *)
+Theorem c21_stage_ensure_valid :
+  forall (req : list pathT) (r : stage_response pathT fsig),
+    stage_response_valid fsig_valid (List.length req) r = true
+    <-> (List.length (fst (expand req r)) = List.length (snd (expand req r))
+         /\ List.length (fst (expand req r)) <= List.length req
+         /\ forallb fsig_valid (sg_sigs r) = true
+         /\ (sg_error r <> ""%string -> sg_paths r = [])).
+Proof. exact (stage_valid_iff pathT fsig fsig_valid). Qed.
+
+(* The compaction of a contract-abiding answer is accepted, and the caller
+   gets exactly the endpoint's paths and signatures. *)
+Theorem c21_stage_roundtrip :
+  forall (req paths : list pathT) (sigs : list fsig),
+    subseq paths req -> List.length sigs = List.length paths ->
+    forallb fsig_valid sigs = true ->
+    client_stage_finish fsig_valid req (compact req paths sigs) = GOk paths sigs.
+Proof. exact (stage_roundtrip pathT fsig fsig_valid). Qed.
+
+(* ------------------------------------------------------------ transition *)
+
+(* Results (nil entries included, wrapped in archives on the wire), problems
+   and the missing-files flag come back unchanged. *)
+Theorem c21_transition_results :
+  forall n (rs : list result) (ps : list problem) (m : bool),
+    List.length rs = n -> forallb result_valid rs = true -> forallb problem_valid ps = true ->
+    client_transition_finish result_valid problem_valid n (server_transition (TAOk rs ps m))
+    = TOk rs ps m.
+Proof. exact (transition_results result problem result_valid problem_valid). Qed.
+
+(* An endpoint failure is a failure for the caller too (its text survives only
+   for an empty transition list: the response is validated first). *)
+Theorem c21_transition_error :
+  forall n m, m <> ""%string ->
+    client_transition_finish (problem := problem) result_valid problem_valid n
+                             (server_transition (TAErr m))
+    = if n =? 0 then TErr (ERemote m) else TErr EInvalidResponse.
+Proof. exact (transition_error result problem result_valid problem_valid). Qed.
+
+Theorem c21_transition_ensure_valid :
+  forall n (r : trans_response result problem),
+    trans_response_valid result_valid problem_valid n r = true
+    <-> (List.length (tr_results r) = n
+         /\ forallb result_valid (map ar_content (tr_results r)) = true
+         /\ forallb problem_valid (tr_problems r) = true).
+Proof. exact (trans_valid_iff result problem result_valid problem_valid). Qed.
+
+(* -------------------------------------------------------------- sessions *)
+
+(* Full statement (false as it stands, see c21_readonly_empty_stage_refuted):
+   the equivalence below without the [known_c21] premise. *)
+Definition full_statement : Prop :=
+  forall (read_only : bool) (St : Type)
+         (E : endpoint snapshot pathT digestT fsig result problem change St),
+    endpoint_ok marshal snap_valid fsig_valid result_valid problem_valid change_valid read_only E ->
+    forall ops st last,
+      Forall (op_wf marshal of_ancestor change_valid) ops ->
+      Forall2 same_outcome_prop (local_run E st ops)
+              (remote_run marshal unmarshal sig_of deltify patch of_ancestor content_nil
+                          snap_valid delta_valid delta_empty delta_nil fsig_valid
+                          result_valid problem_valid change_valid E
+                          {| cl_last := last; sv_alive := true; sv_state := st |} ops).
+
+(* For EVERY endpoint state machine that honours the Endpoint contract and
+   whose Stage begins like the local endpoint's, EVERY sequence of Scan, Stage
+   and Transition operations (up to and including the first failed Stage,
+   after which the server's loop has ended), EVERY initial endpoint state and
+   client baseline: operation by operation the endpoint behind client and
+   server returns the same outcome as the endpoint used directly -- the same
+   snapshot, the same paths and signatures, the same results, problems and
+   missing-files flag, or a failure on both sides (for Scan with the same
+   try-again flag) -- PROVIDED no operation is in the known class
+   (Stage with no paths on a read-only endpoint). *)
+Theorem c21_equivalence_partial :
+  forall (read_only : bool) (St : Type)
+         (E : endpoint snapshot pathT digestT fsig result problem change St),
+    endpoint_ok marshal snap_valid fsig_valid result_valid problem_valid change_valid read_only E ->
+    forall ops st last,
+      Forall (op_wf marshal of_ancestor change_valid) ops ->
+      Forall (fun o => known_c21 read_only o = false) ops ->
+      Forall2 same_outcome_prop (local_run E st ops)
+              (remote_run marshal unmarshal sig_of deltify patch of_ancestor content_nil
+                          snap_valid delta_valid delta_empty delta_nil fsig_valid
+                          result_valid problem_valid change_valid E
+                          {| cl_last := last; sv_alive := true; sv_state := st |} ops).
+Proof.
+  exact (session_equivalence snapshot ancestor bytes sgn delta marshal unmarshal sig_of deltify
+                             patch of_ancestor content_nil snap_valid delta_valid delta_empty
+                             delta_nil pathT digestT fsig fsig_valid result problem change
+                             result_valid problem_valid change_valid marshal_roundtrip
+                             c19_patch_deltify deltify_valid delta_nil_valid delta_nil_empty).
+Qed.
+
+(* ---------------------------------------------------------------- checker *)
+Variable snapshot_eqb : snapshot -> snapshot -> bool.
+Variable path_eqb : pathT -> pathT -> bool.
+Variable fsig_eqb : fsig -> fsig -> bool.
+Variable result_eqb : result -> result -> bool.
+Variable problem_eqb : problem -> problem -> bool.
+Hypothesis snapshot_eqb_spec : forall a b, snapshot_eqb a b = true <-> a = b.
+Hypothesis path_eqb_spec : forall a b, path_eqb a b = true <-> a = b.
+Hypothesis fsig_eqb_spec : forall a b, fsig_eqb a b = true <-> a = b.
+Hypothesis result_eqb_spec : forall a b, result_eqb a b = true <-> a = b.
+Hypothesis problem_eqb_spec : forall a b, problem_eqb a b = true <-> a = b.
+
+(* check_c21 (applied by the harness to the real endpoints' outputs) decides
+   the property's relation. *)
+Theorem c21_check_sound :
+  forall loc rem,
+    check_c21 snapshot_eqb path_eqb fsig_eqb result_eqb problem_eqb loc rem = true
+    <-> Forall2 same_outcome_prop loc rem.
+Proof.
+  exact (check_sound snapshot pathT fsig result problem snapshot_eqb path_eqb fsig_eqb result_eqb
+                     problem_eqb snapshot_eqb_spec path_eqb_spec fsig_eqb_spec result_eqb_spec
+                     problem_eqb_spec).
+Qed.
+
+(* The model's own output passes the checker. *)
+Theorem c21_model_passes_check :
+  forall (read_only : bool) (St : Type)
+         (E : endpoint snapshot pathT digestT fsig result problem change St),
+    endpoint_ok marshal snap_valid fsig_valid result_valid problem_valid change_valid read_only E ->
+    forall ops st last,
+      Forall (op_wf marshal of_ancestor change_valid) ops ->
+      Forall (fun o => known_c21 read_only o = false) ops ->
+      check_c21 snapshot_eqb path_eqb fsig_eqb result_eqb problem_eqb
+                (local_run E st ops)
+                (remote_run marshal unmarshal sig_of deltify patch of_ancestor content_nil
+                            snap_valid delta_valid delta_empty delta_nil fsig_valid
+                            result_valid problem_valid change_valid E
+                            {| cl_last := last; sv_alive := true; sv_state := st |} ops) = true.
+Proof.
+  exact (model_passes_check snapshot ancestor bytes sgn delta marshal unmarshal sig_of deltify
+                            patch of_ancestor content_nil snap_valid delta_valid delta_empty
+                            delta_nil pathT digestT fsig fsig_valid result problem change
+                            result_valid problem_valid change_valid marshal_roundtrip
+                            c19_patch_deltify deltify_valid delta_nil_valid delta_nil_empty
+                            snapshot_eqb path_eqb fsig_eqb result_eqb problem_eqb
+                            snapshot_eqb_spec path_eqb_spec fsig_eqb_spec result_eqb_spec
+                            problem_eqb_spec).
+Qed.
+
+End C21.
+
+(* The known finding: on a read-only endpoint whose Stage begins exactly as
+   local/endpoint.go's does, Stage with no paths and no digests fails when the
+   endpoint is used directly and reports "nothing to stage" through client
+   and server; the operation is in the class [known_c21]. *)
+Theorem c21_readonly_empty_stage_refuted :
+  ro_local = [ResStage (GErr (ERemote "endpoint is in read-only mode"))]
+  /\ ro_remote = [ResStage (GOk [] [])]
+  /\ known_c21 (ancestor := unit) (pathT := unit) (digestT := unit) (change := unit)
+               true (OpStage [] []) = true.
+Proof. exact readonly_empty_stage_diverges. Qed.
+
+(* Non-vacuity: the hypotheses are satisfiable together, on a history that
+   exercises every branch of the baseline state machine (snapshot with
+   content, endpoint error, nil content, content again). Snapshots are
+   numbers (0 = nil content), bytes = the number, a signature = the bytes, a
+   delta = (target, signature it was computed against). *)
+Example c21_hypotheses_satisfiable :
+  let marshal (s : nat) := Some s in
+  let unmarshal (b : nat) := Some b in
+  let sig_of (b : nat) := b in
+  let deltify (t s : nat) := Some (t, s) in
+  let patch (base s : nat) (d : option (nat * nat)) :=
+      match d with
+      | None => Some 0
+      | Some (t, s') => if s =? s' then Some t else None
+      end in
+  let valid (d : option (nat * nat)) := true in
+  let empty (d : option (nat * nat)) := match d with None => true | Some _ => false end in
+  (forall s b, marshal s = Some b -> unmarshal b = Some s)
+  /\ (forall base target, patch base (sig_of base) (deltify target (sig_of base)) = Some target)
+  /\ (forall t s, valid (deltify t s) = true) /\ valid None = true /\ empty None = true
+  /\ let h := [ {| ev_anc := 9; ev_full := false; ev_answer := fun _ => SAOk 5 |};
+                {| ev_anc := 9; ev_full := true; ev_answer := fun _ => SAErr "scan failed" true |};
+                {| ev_anc := 9; ev_full := false; ev_answer := fun _ => SAOk 0 |};
+                {| ev_anc := 8; ev_full := false; ev_answer := fun f => if f then SAOk 1 else SAOk 7 |} ] in
+     Forall (event_wf marshal (fun a : nat => a) (fun _ => true)) h
+     /\ map (fun st => (st_base st, st_result st, st_last st))
+            (scan_trace marshal unmarshal sig_of deltify patch (fun a : nat => a)
+                        (fun s => s =? 0) (fun _ => true) valid empty None None h)
+        = [ (Some 9, ROk 5, Some 5);
+            (Some 5, RErr (ERemote "scan failed") true, Some 5);
+            (Some 5, ROk 0, Some 5);
+            (Some 5, ROk 7, Some 7) ].
+Proof. exact hypotheses_satisfiable_example. Qed.
+
+Print Assumptions c21_scan_history.
+Print Assumptions c21_scan_snapshots_exact.
+Print Assumptions c21_scan_baselines_agree.
+Print Assumptions c21_stage_compaction.
+Print Assumptions c21_stage_ensure_valid.
+Print Assumptions c21_stage_roundtrip.
+Print Assumptions c21_transition_results.
+Print Assumptions c21_transition_error.
+Print Assumptions c21_transition_ensure_valid.
+Print Assumptions c21_equivalence_partial.
+Print Assumptions c21_check_sound.
+Print Assumptions c21_model_passes_check.
+Print Assumptions c21_readonly_empty_stage_refuted.
+Print Assumptions c21_hypotheses_satisfiable.
